@@ -322,7 +322,7 @@ def rule_r1(ctx) -> List[R.Inst]:
     return insts
 
 
-def _sign_test_of_gap(txt: str) -> bool:
+def _sign_test_of_gap(txt: str, name: str = "diff") -> bool:
     """`diff > 0`, `diff <= 0`, `0 < diff` …: an ordering comparison of the gap with zero (always False for NaN, so it can stand in for
     isnan — except at gap 0)"""
     try:
@@ -333,7 +333,7 @@ def _sign_test_of_gap(txt: str) -> bool:
         e = e.operand
     if isinstance(e, ast.Compare) and len(e.ops) == 1 and isinstance(e.ops[0], (ast.Gt, ast.GtE, ast.Lt, ast.LtE)):
         sides = [e.left, e.comparators[0]]
-        return any(isinstance(x, ast.Name) and x.id == "diff" for x in sides) and \
+        return any(isinstance(x, ast.Name) and x.id == name for x in sides) and \
             any(isinstance(x, ast.Constant) and x.value == 0 and not isinstance(x.value, bool) for x in sides)
     return False
 
@@ -510,6 +510,11 @@ def rule_r2(ctx) -> List[R.Inst]:
                             f"('{und[:60]}'), which also decides for two notes of one column at the same time (gap 0): one of them is "
                             f"treated as the last note and keeps its length, and which one depends on the row order",
                             construct=f"gap compared with 0: {und[:80]}"))
+    elif und is not None and _sign_test_of_gap(und, "length"):
+        insts.append(R.viol(rid, "decision-table", file, inner.lineno,
+                            f"'was a hit' means the stacked row has NO length (NaN); the branch tests the length's sign ('{und[:60]}'), which "
+                            f"also holds for a hold of length 0 (or less): such a hold, as the last note of its column, comes out as a hit "
+                            f"although the last note keeps its kind and length", construct=f"length compared with 0: {und[:80]}"))
     elif und is not None:
         insts.append(R.undec(rid, "decision-table", file, inner.lineno,
                              f"a branch condition ('{und[:60]}') is not one of: last note / was a hit / long enough"))
